@@ -76,7 +76,7 @@ func TestVerifBoundedC32Subdomain(t *testing.T) {
 		"/ipns/k51qzi5uqu5di608geewp3nqkg0bpujoasmka7ftkyxgcm3fh1aroup0gsdrna",
 		"/ipns/dnslink.long-name.example.com", "/ipns/en.wikipedia-on-ipfs.org", "/ipns/a.b",
 	}
-	rests := []string{"", "/", "/wiki/Foo", "/a%20b/c%2Fd", "/x/"}
+	rests := []string{"", "/", "/wiki/Foo", "/a%20b/c%2Fd", "/x/", "/a%2520b.txt", "/50%25off.txt", "/q%3Fx%23y"} // the last three still hold %, ? or # once decoded
 	queries := []string{"", "filename=a%20b.txt&download=true"}
 	for _, root := range roots {
 		for _, rest := range rests {
